@@ -3,6 +3,7 @@ package wal
 import (
 	"bufio"
 	"encoding/binary"
+	"errors"
 	"fmt"
 	"hash/crc32"
 	"io"
@@ -293,6 +294,12 @@ func ReplayWALFile(path string, handler EntryHandler) (*RecoveryStats, error) {
 		if err != nil {
 			if err == io.EOF {
 				// Reached the end of the file
+				break
+			}
+
+			// A record cut short by the end of the file is what a crash during
+			// an append leaves behind: the log ends before that record
+			if errors.Is(err, io.ErrUnexpectedEOF) || strings.Contains(err.Error(), "unexpected EOF") {
 				break
 			}
 
